@@ -36,6 +36,7 @@ type Exec struct {
 	counters  []*TrackClause
 	unsupported []string
 	inSpec bool
+	poolVals map[string]bool
 	freshStore bool
 	assumeNil bool
 	inlinedInLoop bool
@@ -133,7 +134,7 @@ func (x *Exec) showAt(fr *Frame, st *State) []ModelVar {
 
 func isImplicitKind(k string) bool {
 	switch k {
-	case "bounds", "nil", "conv", "div", "assert", "overflow", "panic":
+	case "bounds", "nil", "conv", "div", "assert", "overflow", "panic", "owned":
 		return true
 	}
 	return false
